@@ -179,7 +179,10 @@ def _walk(items, ms, out, class_stack):
                 claimed = False
             _impl(it, ms, out, class_stack, claimed)
         elif k == "addtest":
-            if _shown(ms, "add_test", doc):
+            if _shown(ms, "add_test", doc) and it.get("noname"):
+                out.append(Entry(dir="function", kind="addtest", name="", sig=None, unnamed=True, adm=[("warning", "ctest")],
+                                 doc=doc_lines(doc), fields=[], marker=marker))
+            elif _shown(ms, "add_test", doc):
                 rest = it["pre"] + it["post"]
                 out.append(Entry(dir="function", kind="addtest", name=it["name"], sig=f"{it['name']}({' '.join(rest)})",
                                  adm=[("warning", "ctest")], doc=doc_lines(doc), fields=[], marker=marker))
